@@ -121,6 +121,20 @@ def evaluate(old_a, new_a, m, k, rng):
                   call(f["cls"], pep_in, old_sp),
                   # release tuples of different lengths: PEP 440 reads "1.0" and "1" as 1.0.0 (trailing zeros dropped)
                   call(f["cls"], pep440(new), short(old)), call(f["cls"], short(new), pep440(old))]
+    # releases with more or fewer than three components (PEP 440 allows any number): the round trip keeps the VERSION
+    # (compared with `packaging`: "1.2.3.4-rc.1" and "1.2.3.4rc1" denote the same version)
+    from packaging.version import Version
+    pre = "" if new["pre"] == "none" else "%s%d" % (new["pre"], new["n"])
+    others = ["%d.%d.%d.%d%s" % (new["maj"], new["min"], new["pat"], new["n"] + 1, pre), short(new)]
+    rt = []
+    for x in others:
+        back = call(f["s2p"], call(f["p2s"], x))
+        try:
+            rt.append(1 if Version(back) == Version(x) else 0)
+        except Exception:  # noqa: BLE001
+            rt.append(0)
+    rec["rt_other"] = rt
+    rec["rt_other_in"] = others
     return rec
 
 
